@@ -104,6 +104,15 @@ def extra_commands(seed, prog):
         ids = [f'{prog.pstr(rng.choice(pts))}/{rng.choice(names)}']
         cmds.append({'at_time': 0.0, 'name': 'set', 'kwargs': {
             'tasks': ids, 'flow': [], 'prerequisites': ['all']}})
+    r2 = random.Random(derive_seed(seed, 'xcmds-hold-active'))
+    if r2.random() < 0.4:
+        # hold everything in the pool a little later: tasks with live jobs
+        # (and finished incomplete ones) are held too, and stay held
+        # across the restart
+        cmds.append({'at_time': r2.choice([2.0, 4.0, 7.0, 11.0]),
+                     'name': 'hold', 'kwargs': {'tasks': ['*/*']}})
+        cmds.append({'at_time': 60.0, 'name': 'release',
+                     'kwargs': {'tasks': ['*/*']}})
     # always release everything later so that both runs can finish
     cmds.append({'at_time': 60.0, 'name': 'release_hold_point', 'kwargs': {}})
     return cmds
